@@ -41,6 +41,11 @@ def io_set(ctx):
 
 
 def run(ctx):
+    _run_main(ctx)
+    _shared_r4(ctx)
+
+
+def _run_main(ctx):
     with ctx.rule('R05.1', 'no Result<_, Error> is dropped on the I/O thread', floor=60) as r:
         seen = io_set(ctx)
         n = 0
@@ -245,3 +250,10 @@ def run(ctx):
         ev = ctx.evaluator(0)
         t = ev.run_fn('connection::Connection::close', [('var', 'self', -1)])
         r.eq('close', S.show(t), fnp + '(self)', ctx.site('connection::Connection::close'))
+
+
+def _shared_r4(ctx):
+    """Rules of other properties that are necessary conditions of this one too (found by seeding round 4)."""
+    with ctx.rule('R05.10', 'the I/O thread never blocks on a client queue, and its timers run on the negotiated heartbeat (shared with C03 / C15)', floor=2) as r:
+        A.include(ctx, r, 'c03', 'R03.6', pick=('blocking:', 'send:try_send'))
+        A.include(ctx, r, 'c15', 'R15.3', pick=('timers',))
